@@ -255,6 +255,10 @@ func c22Run(singleShot bool) {
 	globalConfigMu.Unlock()
 	caches.Purge(caches.OAuthJWTCache)
 	caches.Purge(caches.BlacklistCache)
+	// entries are only lost through the explicit operations below: natively the
+	// sweeper must not evict them when the (fake) clock jumps by years
+	_ = caches.SetExpiration(caches.OAuthJWTCache, "900000h")
+	_ = caches.SetExpiration(caches.BlacklistCache, "900000h")
 
 	if !sym.Symbolic() {
 		good, _ := ecdsa.GenerateKey(elliptic.P256(), rand.Reader)
